@@ -72,6 +72,7 @@ type c20probe struct {
 	panicActive  bool   // the handler behind the idle handler panics in HandleActive
 	closeActive  func() // … or closes the channel there (connection limit, failed handshake)
 	eventHook    func() // runs inside the handler of the next idle event (a slow handler during which traffic arrives)
+	inacts       int    // inactive events seen by the handler behind the idle handler since the last report
 }
 
 func (p *c20probe) HandleRead(ctx netty.InboundContext, m netty.Message) {
@@ -141,6 +142,7 @@ func (o evtOnly) HandleActive(ctx netty.ActiveContext) {
 	ctx.HandleActive()
 }
 func (o evtOnly) HandleInactive(ctx netty.InactiveContext, ex netty.Exception) {
+	o.p.inacts++
 	if o.p.panicInactive {
 		o.p.panicInactive = false
 		panic("nv-inactive-handler-panic")
@@ -182,9 +184,13 @@ func runC20(seed int64, count int) {
 			if ev == "" {
 				ev = "-"
 			}
+			if op == "inactive" || op == "activeinact" || op == "fireinact" || op == "inactonly" {
+				extra = fmt.Sprintf("inact=%d", pr.inacts) // how often the handler behind the idle handler saw the inactive event
+			}
 			emit("C20 op %s %d %s ev=%s exc=%d", op, t, extra, ev, pr.excs)
 			pr.events = nil
 			pr.excs = 0
+			pr.inacts = 0
 		}
 		nops := 3 + rng.Intn(14)
 		for i := 0; i < nops; i++ {
@@ -314,6 +320,11 @@ func runC20(seed int64, count int) {
 					inactive()
 					active = false
 					report("inactive", sec(), "-")
+				} else if rng.Intn(3) == 0 {
+					// the channel is closed before the active event ever reached the idle handler (a handler in front of it
+					// refused the connection): the inactive event passes an idle handler that holds no timer
+					inactive()
+					report("inactonly", sec(), "-")
 				}
 			}
 		}
